@@ -27,7 +27,7 @@ from vlib.core import site_of
 LEVEL = "other"
 EXPLANATION = "C15: method whitelist on the active deque, guard polarity of pop_front, poll-the-rest pairing, refill-loop shape, WAKE-1 with one reasoned exception, chaining of validate_record in validated_seq_join."
 CONFIGS_QUICK = ["Q", "M"]
-CONFIGS_THOROUGH = ["Q", "M"]
+CONFIGS_THOROUGH = ["Q", "M", "N"]
 
 ALLOWED = {"push_back", "pop_front", "front_mut", "iter_mut", "len", "capacity", "with_capacity", "is_empty", "front", "iter"}
 
